@@ -111,6 +111,32 @@ CHECKS = {
         technique="TLA+ walk machine + selector semantics; TLC-computed visit sequences replayed against the real walk",
         engine="tlc+vh",
     ),
+    "C08": dict(
+        category="model_checking",
+        text="Schema.tla states, from the IPLD Schema documentation, the three mappings between data-model trees and typed "
+             "values (FromType, FromRepr, ReprOf) for every representation strategy the library implements. TLC enumerates "
+             "all inhabitants of a catalogue of 23 nested types, checks that the mappings invert each other, and emits "
+             "(type, input, typed value, representation view); the harness builds each value through bindnode's type-level "
+             "and representation-level builders, compares both views of both nodes through every read form, and round-trips "
+             "the representation through dag-cbor and dag-json.",
+        design_ref="DESIGN.md section 4, C08",
+        note="Bounded catalogue and value domain; three known findings in bindnode's representation views (secondary "
+             "observations); generated code is compared under C13; trusted: TLC, harness.",
+        technique="TLA+ schema semantics evaluated by TLC over enumerated types and inhabitants; every case replayed into the typed-node engine",
+        engine="tlc+vh",
+    ),
+    "C09": dict(
+        category="model_checking",
+        text="The same Schema.tla mappings give, for every local mutation of conforming trees at type and representation level, "
+             "the verdict a typed builder must reach and the typed value it must produce when it accepts; TLC checks that "
+             "accepted mutants denote inhabitants with consistent views and emits the cases; the harness feeds each tree to "
+             "bindnode's builders under recover().",
+        design_ref="DESIGN.md section 4, C09",
+        note="Hashed sample of inhabitants per type in the quick tier; bindnode engine here, generated code under C13; "
+             "trusted: TLC, harness.",
+        technique="TLA+ acceptance semantics; TLC-generated conforming and mutated inputs replayed into typed builders",
+        engine="tlc+vh",
+    ),
     "C12": dict(
         category="model_checking",
         text="Assembler.tla is the builder/assembler protocol as a state machine (one action per public call, the two "
